@@ -94,14 +94,10 @@ fn has_raw_cr_literal(objs: &AObjects) -> bool {
     objs.values().any(|a| w(&a.obj))
 }
 
-pub fn run(c: &mut Ctx) {
-    c.rule = "abstract documents (all object kinds incl. streams, sparse ids, generations) written by an independent reference writer that randomises \
-white space / comments / EOLs / name and string escapes / number spellings / object order / subsection splits / xref stream W and Index / object streams / \
-indirect Lengths / Flate + PNG predictor on structural streams / junk before the header; one counter per choice. Oracle = the abstract document. \
-Non-trivial = every case (distinct by file bytes).".into();
-    // prelude: a process that loads well-formed files has usually loaded damaged ones before. 40 files whose 64 objects and whose
-    // trailer nest deeper than the parser accepts are loaded first (and rejected object by object) on this thread and on the pool's
-    // worker threads; nothing of that may be left behind in per-thread parser state when the well-formed files below are loaded.
+/// prelude: a process that loads well-formed files has usually loaded damaged ones before. 160 files whose objects and whose
+/// trailer nest deeper than the parser accepts are loaded first (and rejected object by object) on this thread and on the pool's
+/// worker threads; nothing of that may be left behind in per-thread parser state when well-formed files are loaded afterwards.
+pub fn over_deep_prelude(c: &mut Ctx) {
     if c.only.is_none() {
         let deep = format!("{}1{}", "[".repeat(200), "]".repeat(200));
         for k in 0..160u32 {
@@ -116,6 +112,14 @@ Non-trivial = every case (distinct by file bytes).".into();
             c.count("prelude.over_deep_files");
         }
     }
+}
+
+pub fn run(c: &mut Ctx) {
+    c.rule = "abstract documents (all object kinds incl. streams, sparse ids, generations) written by an independent reference writer that randomises \
+white space / comments / EOLs / name and string escapes / number spellings / object order / subsection splits / xref stream W and Index / object streams / \
+indirect Lengths / Flate + PNG predictor on structural streams / junk before the header; one counter per choice. Oracle = the abstract document. \
+Non-trivial = every case (distinct by file bytes).".into();
+    over_deep_prelude(c);
     let n = c.n(1500, 25000);
     let mut counters = Counters::new();
     for i in 0..n {
